@@ -1008,7 +1008,53 @@ def sched_ops(case, rp):
                         return dict(confirmed=True, detail='; '.join(probs[:3]),
                                     input=dict(nodes=nodes, task=task['description']),
                                     found_by='small-scope native enumeration (%d cases)' % n)
-    return dict(confirmed=False, detail='%d grant/release round trips hold natively' % n)
+    # many completions pending at once (the drain loop bulks up to 512+)
+    probs = sched_mass_release(rp, 600)
+    if probs:
+        return dict(confirmed=True, detail='; '.join(probs[:3]),
+                    input=dict(scenario='600 one-core tasks granted on 40x16 cores, '
+                               'released as 30 single messages and bulks of 50'),
+                    found_by='bounded native scenario')
+    return dict(confirmed=False, detail='%d grant/release round trips and a 600-task '
+                'mass release hold natively' % n)
+
+
+def sched_mass_release(rp, n_tasks):
+    nodes = [{'index': i, 'name': 'n%03d' % i, 'cores': [0.0] * 16, 'gpus': [0.0, 0.0],
+              'lfs': 1000, 'mem': 1024} for i in range(40)]
+    c = mk_sched(rp, copy.deepcopy(nodes), 16, 2, lfs_pn=1000, mem_pn=1024)
+    c._active_cnt = 0
+    c.slot_status = lambda *a, **k: None
+    tasks = []
+    for i in range(n_tasks):
+        t = mk_atask(1, 1, 0.0, 3, 2, uid='task.%06d' % i)
+        if not c._try_allocation(t):
+            return ['could not place task %d of %d one-core tasks on 640 cores' % (i, n_tasks)]
+        tasks.append(t)
+    import queue as _q
+    q = _q.Queue()
+    for t in tasks[:30]: q.put(t)
+    for i in range(30, n_tasks, 50): q.put(tasks[i:i + 50])
+
+    class _Q:
+        def get(self, timeout=None):
+            try: return q.get_nowait()
+            except _q.Empty: raise
+        def put(self, x): q.put(x)
+    c._queue_unsched = _Q()
+    c._term = _Event()
+    c._refresh_ts_map = lambda: None
+    for _ in range(20):
+        c._unschedule_completed()
+        if q.empty(): break
+    probs = []
+    if c.nodes != nodes:
+        bad = [n['name'] for n, m in zip(c.nodes, nodes) if n != m]
+        probs.append('after releasing all %d tasks the node list is not restored (%s)'
+                     % (n_tasks, ', '.join(bad[:3])))
+    if c._active_cnt != 0:
+        probs.append('_active_cnt is %d after all tasks were released' % c._active_cnt)
+    return probs
 
 
 # ------------------------------------------------------------------------------
